@@ -106,6 +106,18 @@ func c03Setup() error {
 		c03Streams = append(c03Streams, cf.Data)
 		c03Names = append(c03Names, cf.Name)
 	}
+	// protected multi-track files with the sinf box of one track removed (sizes repaired)
+	for _, nm := range []string{"cbcs.mp4", "prog_8s_enc_dashinit.mp4", "cbcs_audio.mp4"} {
+		if cf := work.ByName(nm); cf != nil {
+			for k := 0; k < 2; k++ {
+				if nd, err := work.DropSinf(cf.Data, k); err == nil {
+					c03Streams = append(c03Streams, nd)
+					c03Names = append(c03Names, fmt.Sprintf("%s-without-sinf-of-trak-%d", nm, k))
+					c03Extra++
+				}
+			}
+		}
+	}
 	// every box of every corpus file, at any depth, as a box-level input (at most 6 distinct instances per type, <= 8 KiB)
 	perType := map[string]int{}
 	seen := map[string]bool{}
@@ -137,6 +149,9 @@ func c03Setup() error {
 }
 
 var c03KeyMismatch string
+
+// c03Extra counts the derived streams appended to c03Streams after the corpus files (objCorpus has no entry for them).
+var c03Extra int
 
 // c03RealBoxes: boxes cut out of the corpus files at any depth (box-level decoder inputs).
 var c03RealBoxes [][]byte
@@ -227,7 +242,7 @@ func c03Run(r *sim.Run) {
 	} else {
 		i := t.Draw(len(c03Streams))
 		x, name = c03Streams[i], c03Names[i]
-		if objCorpus[i].Progressive && t.Chance(250) {
+		if i < len(objCorpus) && objCorpus[i].Progressive && t.Chance(250) {
 			v := work.LayoutVariant{LargeMdat: t.Bool(), MdatFirst: t.Bool(), EmptyMdat: t.Draw(4), EmptyLarge: t.Bool()}
 			if nd, err := work.ApplyLayout(x, v); err == nil {
 				x, name = nd, name+"["+v.String()+"]"
